@@ -103,26 +103,26 @@ CLAIMS = {
 
 # sentences appended to the level text (rules added after the table above was written)
 ADDENDA = {
- "C01": " The group template is evaluated with the tag index used only as an index (a lone ${tag} on token 0 is a tag, not a string part). The group registry is replaced only before the workers of a run start. The lookup that evaluates the group template writes no shared state.",
+ "C01": " The group template is evaluated with the tag index used only as an index (a lone ${tag} on token 0 is a tag, not a string part). The group registry is replaced only before the workers of a run start. The lookup that evaluates the group template writes no shared state. The group evaluator returns the resource name only for the nil group.",
  "C02": " Every worker is started before the state from which callbacks are accepted is published. An exact accept site of the matcher lies behind the node's handler test (a handler-less node never ends the backtracking). The handler lookup behind With writes no shared state. The index of a group tag is used only as an index (a tag on token 0 is a tag). The group a request reports is the routed group; WithResource and query callbacks are keyed by it.",
- "C05": " The pattern selected is the matcher's: literal, placeholder, wildcard in that order with a failed recursive match falling through (C06.R1 obligations). The mux path is stripped only at a token boundary (C06.R7 obligations). The group registry is re-created before the workers of a run start. Error replies carry the error handed in, converted by ToError only. The covering filter of the subscribing loop ranges over the whole pattern list.",
- "C07": " The token-reset subject is tested non-empty in addition to the path validator, which accepts the empty path. The custom event method panics on every reserved and malformed name before publishing. No append onto a truncated prefix of a slice parameter (a payload is not written after it was encoded).",
- "C08": " Every resource constructed with a routed handler is given the listeners of the same match. In a method that notifies listeners, every path that published reaches the listener notification. An event funnel publishes on every path to its return (only a payload that cannot be encoded leaves without). No recover in an event method's unit: a panicking apply handler has failed. Listeners are called by the event method itself, not from a closure.",
- "C09": " A subscription error is tested or returned before the next subscription is made (typestate over subscribe and its helpers). The subscribing function is called only from the start-up sequence. The ownership setter keeps nil and empty apart.",
+ "C05": " The pattern selected is the matcher's: literal, placeholder, wildcard in that order with a failed recursive match falling through (C06.R1 obligations). The mux path is stripped only at a token boundary (C06.R7 obligations). The group registry is re-created before the workers of a run start. Error replies carry the error handed in, converted by ToError only. The covering filter of the subscribing loop ranges over the whole pattern list. No append onto a truncated prefix of a slice parameter (the request message is not overwritten before it is parsed).",
+ "C07": " The token-reset subject is tested non-empty in addition to the path validator, which accepts the empty path. The custom event method panics on every reserved and malformed name before publishing. No append onto a truncated prefix of a slice parameter (a payload is not written after it was encoded). In every reply encoder the error edge of json.Marshal still reaches a call that always replies.",
+ "C08": " Every resource constructed with a routed handler is given the listeners of the same match. In a method that notifies listeners, every path that published reaches the listener notification. An event funnel publishes on every path to its return (only a payload that cannot be encoded leaves without). No recover in an event method's unit: a panicking apply handler has failed. Listeners are called by the event method itself, not from a closure. The value an apply handler returned is handed on unmodified.",
+ "C09": " A subscription error is tested or returned before the next subscription is made (typestate over subscribe and its helpers). The subscribing function is called only from the start-up sequence. The ownership setter keeps nil and empty apart. Pattern.Matches, which decides covering, gives wildcard meaning only at a token start.",
  "C12": " A mutation never decides from a stale cached before-value (C11.K2 obligations). The adder of Init either collects an entry or records a non-nil error that the transaction body returns before writing. Inside an update closure no second transaction is opened and every read goes through the closure's own transaction. The id of a stored key is the key minus the prefix, never a cutset trim. The reader of index entries splits at the last separator. No database key is built by appending to a slice kept in the store.",
- "C13": " In the index scan offset, limit and the result only count entries the key filter accepted (per-iteration typestate). No success return inside a loop over the indexes of the store. The query store is told of a change only after the commit (C10.G2 obligations). Key presence is tested by nil, never by length. The reverse seek key is the prefix extended by 0xFF.",
+ "C13": " In the index scan offset, limit and the result only count entries the key filter accepted (per-iteration typestate). No success return inside a loop over the indexes of the store. The query store is told of a change only after the commit (C10.G2 obligations). Key presence is tested by nil, never by length. The reverse seek key is the prefix extended by 0xFF. An id is taken from an index entry only when the query prefix ends before the separator.",
  "C14": " Init announces as created only what it wrote (C12.I2 obligations). No queued closure captures a re-assigned loop variable (C15.C1 obligations). A change is declared not to affect a query only from tests of the before/after keys. Key presence is tested by nil, never by length. Index maintenance starts no goroutine. QueryChange.Events is asked with the query the request handler translated the request into.",
- "C16": " The lazily defaulted ownership lists are exempt only when the defaulting provably closes their ==nil guard (non-nil on every path), so that later ResetAll calls only read. In the stop sequence per-run fields are written before the stopped state is published. No append onto a slice field of a query value (query values are shared by value). No append onto a slice living in a shared object unless the result is stored back into it. The producers touch the queue state only after an atomic load has seen the started state. A query event's channel is not closed while its subscription can still deliver.",
- "C18": " Envelope members the client does not declare (meta) are tolerated: no strict decoder in the client package. Value.Equal reads, per value class, only members the parser assigns on every path to that class. Request.Error and its siblings reply with ToError(err) on every path (no classification of the error). Reply payloads are package-level literals or json.Marshal output. The value parser decodes into a fresh object. No append onto a truncated prefix of a slice parameter.",
- "C20": " No slice that may hold a field of the handler is appended to, copied into or stored into. Bytes handed to Txn.Set are never backed by a pooled buffer. The error of the write of the resource flows into the update closure's result. Only the delete handler deletes the stored resource.",
+ "C16": " The lazily defaulted ownership lists are exempt only when the defaulting provably closes their ==nil guard (non-nil on every path), so that later ResetAll calls only read. In the stop sequence per-run fields are written before the stopped state is published. No append onto a slice field of a query value (query values are shared by value). No append onto a slice living in a shared object unless the result is stored back into it. The producers touch the queue state only after an atomic load has seen the started state. A query event's channel is not closed while its subscription can still deliver. The group evaluator returns the resource name only for the nil group.",
+ "C18": " Envelope members the client does not declare (meta) are tolerated: no strict decoder in the client package. Value.Equal reads, per value class, only members the parser assigns on every path to that class. Request.Error and its siblings reply with ToError(err) on every path (no classification of the error). Reply payloads are package-level literals or json.Marshal output. The value parser decodes into a fresh object. No append onto a truncated prefix of a slice parameter. IsValidRID accepts exactly 33..126 with ? singled out.",
+ "C20": " No slice that may hold a field of the handler is appended to, copied into or stored into. Bytes handed to Txn.Set are never backed by a pooled buffer. The error of the write of the resource flows into the update closure's result. Only the delete handler deletes the stored resource. After DB.Update has returned without error an apply handler returns no error of its own.",
  "C03": " The stop transition out of the started state is one compare-and-swap. What serve publishes after declaring the service started goes through a state-checked entry point. The submitting function starts no goroutine; the worker count is stored positive.",
- "C04": " No call on the optional logger is reachable without a non-nil test of it (the logging helpers run where a panic kills the process). The dispatcher is reached only with the Match the handler lookup returned on its success edge. A work item's callback queue is only tail-appended and drained by an index that re-reads its length. The worker count is stored positive.",
- "C06": " Placeholder records are compared member by member at registration; every trie traversal that carries positions rebinds its mount index at mount points. A path parameter is recorded only for a named placeholder; exact accept sites lie behind the node's handler test. The name is tokenised at every separator: no Fields/FieldsFunc, no cutset trim with a variable set.",
- "C10": " The registration-time traversal that tells a handler its pattern is mount-aware (C06.R11 obligations). The change fan-out of the badger store runs after the committed update, not inside its closure. A value the transformer refuses counts as missing in the change handler; the handler does not give up on the change. The change handler publishes its events inside the store's change callback (no With / goroutine).",
- "C15": " The expiry queues the nil call on every path. The query event's channel is closed, if at all, only after the subscription delivering into it is gone. The query request's reply funnel tests and sets the replied flag for every reply method. A query request is decoded into a fresh value.",
- "C17": " The mux path is stripped only at a token boundary (C06.R7 obligations). Search needles assembled from parts (\"$\"+tag) count as wildcard searches. The registration-time traversal is mount-aware; tokenisation is exact (no Fields/FieldsFunc, no variable cutset trim). A literal byte comparison in a pattern scanner is dominated by the wildcard decision. The common registration function validates the pattern itself.",
- "C19": " The inbox channel is made for the request (not pooled or shared); anchors are resolved over SendRequest and its private helpers. InternalError returns its own fresh Error with the internal-error code on every path.",
- "C11": " No key is built by appending to a slice kept in the store. A store's fan-out function reaches the listeners on every call.",
+ "C04": " No call on the optional logger is reachable without a non-nil test of it (the logging helpers run where a panic kills the process). The dispatcher is reached only with the Match the handler lookup returned on its success edge. A work item's callback queue is only tail-appended and drained by an index that re-reads its length. The worker count is stored positive. The library's own connection options never disable the reconnect buffer or reconnecting (a frozen fact about nats.go: a negative ReconnectBufSize means no buffer).",
+ "C06": " Placeholder records are compared member by member at registration; every trie traversal that carries positions rebinds its mount index at mount points. A path parameter is recorded only for a named placeholder; exact accept sites lie behind the node's handler test. The name is tokenised at every separator: no Fields/FieldsFunc, no cutset trim with a variable set. After a failed attempt on the literal child the placeholder child is tried before the wildcard. The group evaluator returns the resource name only for the nil group.",
+ "C10": " The registration-time traversal that tells a handler its pattern is mount-aware (C06.R11 obligations). The change fan-out of the badger store runs after the committed update, not inside its closure. A value the transformer refuses counts as missing in the change handler; the handler does not give up on the change. The change handler publishes its events inside the store's change callback (no With / goroutine). Value.Equal compares encoded bytes (no decoding in its unit).",
+ "C15": " The expiry queues the nil call on every path. The query event's channel is closed, if at all, only after the subscription delivering into it is gone. The query request's reply funnel tests and sets the replied flag for every reply method. A query request is decoded into a fresh value. The resource kept in a query event carries the receiver's group.",
+ "C17": " The mux path is stripped only at a token boundary (C06.R7 obligations). Search needles assembled from parts (\"$\"+tag) count as wildcard searches. The registration-time traversal is mount-aware; tokenisation is exact (no Fields/FieldsFunc, no variable cutset trim). A literal byte comparison in a pattern scanner is dominated by the wildcard decision. The common registration function validates the pattern itself. The trie insertion reaches no panic for the anonymous placeholder (any number of times in one pattern).",
+ "C19": " The inbox channel is made for the request (not pooled or shared); anchors are resolved over SendRequest and its private helpers. InternalError returns its own fresh Error with the internal-error code on every path. Every path from a receive on the inbox to ParseResponse tests the message's data.",
+ "C11": " No key is built by appending to a slice kept in the store. A store's fan-out function reaches the listeners on every call. The bytes handed to Txn.Set are not backed by a pooled object.",
 }
 
 NA = {}
